@@ -779,3 +779,107 @@ def fetch_only_rules():
                   ("quiesce",), ("eof", 1), ("eof", 0), ("quiesce",)]
             out.append(Scenario(st, name="fetch-only-rules-%s-%d" % (tr, who)))
     return out
+
+
+_BUCKETS = {}
+
+
+def _path_buckets(variant="default"):
+    """bucket -> path names, computed with the TREE's own string hash and element table order (harness/util/pathhash.c)"""
+    from . import common as C
+    import collections
+    import os
+    import subprocess
+    key = (C.SRC, variant)
+    if key not in _BUCKETS:
+        b = C.cc_build("pathhash", [os.path.join(C.ROOT, "harness", "util", "pathhash.c")], variant=variant, sanitize=False)
+        out = subprocess.run([b, "300000", "h/"], stdout=subprocess.PIPE).stdout.decode().split("\n")
+        bk = collections.defaultdict(list)
+        for l in out:
+            if l:
+                a, nm = l.split(" ", 1)
+                bk[int(a)].append(nm)
+        _BUCKETS[key] = (bk, 1 << int(C.config_values(variant)["CONFIG_ELEMENT_TABLE_ORDER"]))
+    return _BUCKETS[key]
+
+
+def colliding_paths():
+    """paths chosen with the tree's own hash function so that they meet in the path index: several in one bucket (with the one
+    stored first removed again), a run of 33 occupied slots that forces an entry to be moved into a slot another bucket just
+    vacated, and a bucket whose neighbourhood is full (the refused add must leave every stored path findable)"""
+    try:
+        bk, size = _path_buckets()
+    except Exception:
+        return []
+    out = []
+    ok = [h for h in sorted(bk) if all(len(bk[(h + d) % size]) >= (36 if d == 0 else (12 if d == 32 else 3)) for d in range(0, 34))]
+    if not ok:
+        return out
+    H = ok[len(ok) // 2]
+
+    def nm(b, k=0):
+        return bk[b % size][k]
+    # S1: three paths of one bucket, the first removed again
+    for tr in ("raw", "ws"):
+        p1, p2, p3 = nm(H, 0), nm(H, 1), nm(H, 2)
+        st = [("connect", 0, "raw", "local6"), ("connect", 1, tr, "remote6"), ("connect", 2, "raw", "remote6"),
+              ("msg", 2, obj(method="fetch", params=obj(id="all"), id=1)),
+              ("msg", 0, obj(method="add", params=obj(path=p1, value=1), id=1)),
+              ("msg", 1, obj(method="add", params=obj(path=p2, value=2), id=1)),
+              ("msg", 1, obj(method="add", params=obj(path=p3, value=3), id=2)),
+              ("msg", 0, obj(method="remove", params=obj(path=p1), id=2)),
+              ("msg", 1, obj(method="change", params=obj(path=p2, value=22), id=3)),
+              ("msg", 1, obj(method="change", params=obj(path=p3, value=33), id=4)),
+              ("msg", 0, obj(method="add", params=obj(path=p2, value=9), id=3)),
+              ("msg", 0, obj(method="set", params=obj(path=p3, value=8), id="r1")),
+              ("msg", 2, obj(method="get", params=obj(), id=2)),
+              ("msg", 0, obj(method="add", params=obj(path=p1, value=5), id=4)),
+              ("msg", 1, obj(method="remove", params=obj(path=p2), id=5)),
+              ("msg", 2, obj(method="get", params=obj(), id=3)),
+              ("quiesce",), ("eof", 1), ("quiesce",), ("eof", 0), ("eof", 2), ("quiesce",)]
+        out.append(Scenario(st, name="colliding-paths-one-bucket-%s" % tr))
+    # S2: slots F-32..F-1 occupied by their own buckets' paths, two paths at home F, the first of them removed, then one more
+    # path with home F-32: an entry has to move into the vacated slot
+    F = H + 33
+    st = [("connect", 0, "raw", "local6"), ("connect", 1, "raw", "remote6"), ("connect", 2, "ws", "remote6"),
+          ("msg", 2, obj(method="fetch", params=obj(id="all"), id=1))]
+    n = 1
+    for d in range(32, 0, -1):
+        st.append(("msg", 0, obj(method="add", params=obj(path=nm(F - d, 0), value=d), id=n)))
+        n += 1
+    y, z = nm(F, 0), nm(F, 1)
+    st += [("msg", 1, obj(method="add", params=obj(path=y, value="y"), id=1)),
+           ("msg", 1, obj(method="add", params=obj(path=z, value="z"), id=2)),
+           ("msg", 1, obj(method="remove", params=obj(path=y), id=3)),
+           ("msg", 0, obj(method="add", params=obj(path=nm(F - 32, 1), value="k"), id=n)),
+           ("msg", 1, obj(method="change", params=obj(path=z, value="z2"), id=4)),
+           ("msg", 0, obj(method="add", params=obj(path=z, value="dup"), id=n + 1)),
+           ("msg", 0, obj(method="change", params=obj(path=nm(F - 32, 1), value="k2"), id=n + 2)),
+           ("msg", 0, obj(method="change", params=obj(path=nm(F - 1, 0), value="last"), id=n + 3)),
+           ("msg", 2, obj(method="get", params=obj(), id=2)),
+           ("msg", 1, obj(method="remove", params=obj(path=z), id=5)),
+           ("msg", 2, obj(method="get", params=obj(path=obj(equals=z)), id=3)),
+           ("quiesce",), ("eof", 0), ("eof", 1), ("eof", 2), ("quiesce",)]
+    out.append(Scenario(st, name="colliding-paths-displacement"))
+    # S3: 32 paths of bucket H, 9 of bucket H+32, then a 33rd for H (cannot be stored): everything stored stays findable
+    st = [("connect", 0, "raw", "local6"), ("connect", 1, "raw", "remote6")]
+    n = 1
+    stored = []
+    for k in range(32):
+        st.append(("msg", 0, obj(method="add", params=obj(path=nm(H, k), value=k), id=n)))
+        stored.append(nm(H, k))
+        n += 1
+    for k in range(9):
+        st.append(("msg", 0, obj(method="add", params=obj(path=nm(H + 32, k), value=100 + k), id=n)))
+        stored.append(nm(H + 32, k))
+        n += 1
+    st.append(("msg", 1, obj(method="add", params=obj(path=nm(H, 33), value="one too many"), id=1)))
+    for p in stored[::3]:
+        st.append(("msg", 0, obj(method="change", params=obj(path=p, value="still here"), id=n)))
+        n += 1
+    st += [("msg", 1, obj(method="get", params=obj(), id=2)), ("msg", 0, obj(method="remove", params=obj(path=stored[0]), id=n)),
+           ("msg", 1, obj(method="add", params=obj(path=nm(H, 33), value="now it fits"), id=3)),
+           ("msg", 1, obj(method="get", params=obj(path=obj(equals=nm(H, 33))), id=4)),
+           ("quiesce",), ("eof", 0), ("eof", 1), ("quiesce",)]
+    out.append(Scenario(st, name="colliding-paths-full-neighbourhood"))
+    return out
